@@ -39,6 +39,13 @@
    check prints   R <sid> ok <items> <complete> | R <sid> diff <k> <kind> <ndiffs> <complete>
                   D <sid> <k> <kind> <who> exp=.. got=..   kind: label shlabel blocked bit err threads table timers sessions listing file now crash
                   G <sid> ...
+                  V <sid> i <e|f> <model item>     every vstep the check performed, in order (e: the echoed item itself, f: forced move)
+                  V <sid> o <k|end> N:<now> T:<tid>:<status> L:<name>:<size>:<key>,.. A:<name>:<key> P:<sid>:<n/k/size>,.. G:<n/k/size>,..
+                                    F:<0|1> Q:<sid>:<n/k/size>,.. K:<crashed> R:<timer key>:<deadline>
+                                                   the model's expectation at the moment it was compared with the real observation
+                                                   after item k / at the end of the schedule (R = sv_armed)
+                  V <sid> z <n>                    number of V i lines of the schedule
+                  (V lines exist for lib/coqeval.py: the same model items are evaluated INSIDE Coq and compared)
    Only enumeration, parsing and printing happen here; every state change and every enabledness / meaningfulness decision is
    made by extracted Coq code (vstep, sv_enabled, sv_forced, sitem_okb). *)
 type ostring = string
@@ -137,7 +144,14 @@ let to_model = function
   | HTick d -> VTick (z_of_int d)
   | HSignal -> VSignal
 
-let apply (cfg : svcfg) (s : svstate) (h : hitem) : svstate = vstep cfg s (to_model h)
+(* check mode: every model item handed to vstep, newest first, with its origin (see the V lines) *)
+let log_items = ref false
+let log_tag = ref 'e'
+let applied : (char * sitem) list ref = ref []
+let apply (cfg : svcfg) (s : svstate) (h : hitem) : svstate =
+  let it = to_model h in
+  if !log_items then applied := (!log_tag, it) :: !applied;
+  vstep cfg s it
 let okb (s : svstate) (h : hitem) : bool = sitem_okb s (to_model h)
 
 let forced_of (cfg : svcfg) (s : svstate) : hitem list =
@@ -188,6 +202,30 @@ let print_obs oc (k : int) (o : obs) =
    | None -> Printf.fprintf oc "F 0\n"
    | Some l -> Printf.fprintf oc "F 1\n"; List.iter (fun (sid, l) -> Printf.fprintf oc "Q %s %d%s\n" sid (List.length l) (toks_of_centries l)) l);
   Printf.fprintf oc "K %d\n" (if o.o_crashed then 1 else 0)
+
+(* ---- V lines (lib/coqeval.py) ---- *)
+let tok_of_sitem = function
+  | VCall (t, op) -> Printf.sprintf "call %d %s" (int_of_nat t) (toks_of_op op)
+  | VRun t -> Printf.sprintf "run %d" (int_of_nat t)
+  | VCancel (t, e) -> Printf.sprintf "cancel %d %s" (int_of_nat t) (tok_of_err (Some e))
+  | VConnect sid -> "connect " ^ hex_of_str sid
+  | VConnEnd sid -> "connend " ^ hex_of_str sid
+  | VTick d -> Printf.sprintf "tick %d" (int_of_z d)
+  | VSignal -> "signal"
+let obs_line (s : svstate) : ostring =
+  let o = observe s in
+  let us s = String.map (fun c -> if c = ' ' then '_' else c) s in
+  let ces l = String.concat "," (List.map (fun (n, k, z) -> Printf.sprintf "%s/%s/%d" n k z) l) in
+  String.concat " "
+    ([Printf.sprintf "N:%d" o.o_now]
+     @ List.map (fun (t, st) -> Printf.sprintf "T:%d:%s" t (us (tok_of_stat st))) o.o_thr
+     @ List.map (fun (n, z, ks) -> Printf.sprintf "L:%s:%d:%s" n z (String.concat "," ks)) o.o_tab
+     @ List.map (fun (n, k) -> Printf.sprintf "A:%s:%s" n k) o.o_tmr
+     @ List.map (fun (sid, l) -> Printf.sprintf "P:%s:%s" sid (ces l)) o.o_ses
+     @ [Printf.sprintf "G:%s" (ces o.o_lst)]
+     @ (match o.o_file with None -> ["F:0"] | Some l -> "F:1" :: List.map (fun (sid, l) -> Printf.sprintf "Q:%s:%s" sid (ces l)) l)
+     @ [Printf.sprintf "K:%d" (if o.o_crashed then 1 else 0)]
+     @ List.map (fun (tk, d) -> Printf.sprintf "R:%s:%d" (hex_of_str tk) (int_of_z d)) (List.sort compare (sv_armed s)))
 
 (* ---- spawn annotations: the goroutines an item starts on the model side ---- *)
 let spawned (before : svstate) (after : svstate) : ostring list =
@@ -534,10 +572,17 @@ let check (file : ostring) =
   let blk : obs option ref = ref None in
   let ndiff = ref 0 and first = ref None and nitems = ref 0 and bad = ref None in
   let active = ref false and comparing = ref true in
+  let nlogged = ref 0 in
+  let flush_items () =
+    List.iter (fun (tag, it) -> incr nlogged; Printf.printf "V %s i %c %s\n" !sid tag (tok_of_sitem it)) (List.rev !applied);
+    applied := [] in
+  log_items := true;
   let settle_forced () =
     let rec go fuel = if fuel > 0 then match forced_of !cfg !s with
         | f :: _ ->
+            log_tag := 'f';
             let s' = apply !cfg !s f in
+            log_tag := 'e';
             List.iter print_endline (ghost_lines (!sid ^ " ") !cur_k (new_events !s s'));
             s := s'; go (fuel - 1)
         | [] -> () in
@@ -551,6 +596,8 @@ let check (file : ostring) =
          let got = { got with o_thr = norm got.o_thr; o_tab = norm (List.filter (fun (_, _, ks) -> ks <> []) got.o_tab); o_tmr = norm got.o_tmr;
                               o_ses = norm got.o_ses; o_lst = norm got.o_lst;
                               o_file = (match got.o_file with Some l -> Some (norm l) | None -> None) } in
+         flush_items ();
+         Printf.printf "V %s o %d %s\n" !sid !cur_k (obs_line !s);
          let ds = compare_obs !sid !cur_k (shut_tids ()) (observe !s) got in
          List.iter (fun (kind, line) ->
              print_endline line; incr ndiff;
@@ -565,7 +612,10 @@ let check (file : ostring) =
        | None -> Printf.printf "R %s ok %d %d\n" !sid !nitems (if complete then 1 else 0)
        | Some (k, kind) -> Printf.printf "R %s diff %d %s %d %d\n" !sid k kind !ndiff (if complete then 1 else 0));
       List.iter print_endline (final_ghost (!sid ^ " ") !s);
-      Printf.printf "G %s crashed %d\n" !sid (if !s.v_crashed then 1 else 0)
+      Printf.printf "G %s crashed %d\n" !sid (if !s.v_crashed then 1 else 0);
+      flush_items ();
+      Printf.printf "V %s o end %s\n" !sid (obs_line !s);
+      Printf.printf "V %s z %d\n" !sid !nlogged
     end;
     active := false in
   (try
@@ -576,7 +626,7 @@ let check (file : ostring) =
          | ["S"; id] ->
              finish false;
              sid := id; s := sv_init; cfg := cfg_of false; cur_k := -1; blk := None; ndiff := 0; first := None; nitems := 0; bad := None;
-             active := true; comparing := true
+             active := true; comparing := true; applied := []; nlogged := 0
          | ["C"; v] -> cfg := cfg_of (v = "1")
          | "I" :: k :: rest when !active && !comparing ->
              flush_block ();
